@@ -44,7 +44,8 @@ def assist(project, source, position, filename=None, debug=False):
 
     scope = extract_scope(source, project)
 
-    prefix = re.split(r'(\.|\s|\()', line)[-1]
+    # the identifier characters immediately left of the cursor
+    prefix = re.search(r'\w*$', line).group(0)
     attr = get_marked_atribute(source.tree)
     names = {}
     if attr:
